@@ -122,8 +122,18 @@ def judge(d):
         else:
             res = model.align(img, ms, quaternion=quat if tilt is not None else None)
             fitted = None
+        # the same model asked again after an alignment at another orientation (the wedge of one call must not stay in the model)
+        if tilt is not None and d["api"] != "fit":
+            q2 = Rotation.from_rotvec(d.get("rot2", {"rv": [0.4, -0.9, 0.3]})["rv"]).as_quat().astype(np.float32)
+            model.align(img, ms, quaternion=q2)
+            res_again = model.align(img, ms, quaternion=quat)
+        else:
+            res_again = None
     tag = (f"{d['model']} {d['api']} class {d['tclass']} shape={tuple(d['shape'])} max_shifts={ms} d={disp.tolist()} "
            f"mask={d['mask']} cutoff={d['cutoff']} tilt={d['tilt']} bg={d.get('bg', 0.0)}")
+    if res_again is not None and (not np.array_equal(np.asarray(res_again.shift), np.asarray(res.shift)) or float(res_again.score) != float(res.score)):
+        out.append(viol(f"C04/repeat-call-differs:{d['model']}", f"{tag}: the same align call returned shift {np.round(res.shift, 3).tolist()} score {float(res.score):.5g} and, after "
+                        f"an alignment at another orientation, {np.round(res_again.shift, 3).tolist()} / {float(res_again.score):.5g}"))
     shift = np.asarray(res.shift, dtype=np.float64)
     if shift.shape != (3,) or not np.all(np.isfinite(shift)):
         out.append(viol("C04/shift-invalid", f"{tag}: shift={res.shift}"))
